@@ -92,11 +92,16 @@ def c16_text(g, pkg, lang, rnd):
         union = ['{\n v0 int\n v1 int\n v2 int\n}', '{\n v0 int\n v1 int\n v2 int\n}', '{ v0 int\n v1 int\n v2 int }', '{ v0 int; v1 int; v2 int }'][style]
         head = '%{\npackage ' + pkg + '\nimport "fmt"\n%}\n%union ' + union + '\n'
         epi = GO_EPI + 'var _ = fmt.Sprint\n'
+        if style == 1:
+            # a long line (a usage text of 6000 bytes in one string literal): a line break anywhere inside it would be a syntax error
+            epi += 'const zzUsage = "' + 'usage: calc [options] file; ' * 215 + '"\n'
     else:
         union = ['{\n v0 :number = 0;\n v1 :number = 0;\n v2 :number = 0;\n}', '{\n v0 :number = 0;\n v1 :number = 0;\n v2 :number = 0;\n}',
                  '{ v0 :number = 0;\n v1 :number = 0;\n v2 :number = 0; }', '{ v0 :number = 0; v1 :number = 0; v2 :number = 0; }'][style]
         head = '%{\n"use strict";\n%}\n%union ' + union + '\n'
         epi = TS_EPI
+        if style == 1:
+            epi += 'const zzUsage :string = "' + 'usage: calc [options] file; ' * 215 + '";\n'
     return head + genrun.decl_block(g, lang) + '%%\n' + gram.render_rules(g, action) + '%%\n' + epi
 
 
@@ -558,6 +563,8 @@ def c18_grammars(ctx):
     gs.append(('h_meta', dict(terms=mt, nonterms=[dict(name='S', tag='v0')], precs=[('left', [4])], rules=mr, start=0)))
     for i in range(2 if ctx.quick else 8):
         gs.append(('h_long_first%d' % i, gram.long_first_grammar(rnd, pos=1 + i % 2)))
+    for i in range(3 if ctx.quick else 12):
+        gs.append(('h_nash%d' % i, gram.nonassoc_shared_grammar(rnd)))
     n = 60 if ctx.quick else 600
     for i in range(n):
         if i % 3 == 0:
@@ -644,6 +651,18 @@ def run_C18(ctx):
                     key = (tr[0], sname[rl['lhs']] + '-->' + ''.join(' %s ' % sname[x] for x in rl['rhs']))
                     # (the listing separates the names of a set by blanks: a blank inside a name, as in the literal ' ', cannot be told from a separator)
                     want_la.setdefault(key, []).append(sorted(''.join(sname[x].split()) for x in d['la'].get(str(idx), [])))
+            # a listed reduce lookahead is in the table, unless something competes for the cell (a shift on the same symbol or another
+            # reduction with the same lookahead): conflict resolution removes candidates, nothing else does
+            cand = {}
+            for idx, tr in enumerate(d['trans']):
+                if tr[2] == 1:
+                    for a in d['la'].get(str(idx), []):
+                        cand.setdefault((tr[0], a), []).append(tr[1])
+            for (q, a), rs in sorted(cand.items()):
+                shifts = any(x == a for (x, to) in d['lr0'][q]['gotos'])
+                if len(rs) == 1 and not shifts and q < len(gt) and a < len(gt[q]) and gt[q][a] != -rs[0] and not (rs[0] == 0 and gt[q][a] == acc):
+                    problems.append('listing: state %d reduces by rule %d on %s and nothing competes for that cell, but the table has %s there'
+                                    % (q, rs[0], sname.get(a), vlib.decode_cell(gt[q][a], err, acc)))
             if {k: sorted(v) for k, v in la.items()} != {k: sorted(v) for k, v in want_la.items()}:
                 ks = [k for k in set(la) | set(want_la) if sorted(la.get(k, [])) != sorted(want_la.get(k, []))]
                 problems.append('listing, lookahead sets differ from those of the run at %s: listed %s, computed %s' % (ks[:2], [la.get(k) for k in ks[:2]], [want_la.get(k) for k in ks[:2]]))
@@ -685,6 +704,14 @@ def run_C18(ctx):
                 ctx.sample(dict(grammar=gname, states=n, listing_head=d['stdout'][:200], dot_head=dot[:200]))
         ctx.extra['grammars'] = len(gs)
         ctx.extra['escape_model'] = escape_compare(ctx, [s['name'] for d in dumps if d.get('ok') for s in d['symbols']])
+        # listing and diagram are compared with the automaton, the lookahead sets and the table of the same run; what they are said to
+        # describe - the tables the parser is generated from - must be what the proved pipeline makes of the same file (the listing
+        # shows lookahead sets, the table is what is left of them after conflict resolution)
+        import backend, props
+        if not props.had_counterexample(ctx):
+            ed = [dict(interface=itf, what='grammar %s: %s' % (nm, what), case=dict(grammar=nm, grammar_text=texts[[g[0] for g in gs].index(nm)], interface=itf, detail=what))
+                  for (nm, itf, what) in backend.e2e_diffs([g[0] for g in gs], paths, dumps)]
+            props.report_corr(ctx, ed, {'I1', 'I2', 'I3', 'I4'}, 'C18')
     finally:
         shutil.rmtree(work, ignore_errors=True)
 
